@@ -1013,6 +1013,31 @@ impl Interpreter {
     }
 
     /// Create a module namespace object from current exports and store in loaded_modules
+    /// The getter behind an exported binding: it reads the module's own variable, or, when the
+    /// exported name is itself an import (`import { n } from "./a"; export { n as m }`),
+    /// follows that import to the module the value lives in
+    fn export_getter(module_env: &Gc<JsObject>, binding_name: JsString) -> JsFunction {
+        let imported = {
+            let env_ref = module_env.borrow();
+            env_ref.as_environment().and_then(|env_data| {
+                env_data
+                    .bindings
+                    .get(&VarKey(binding_name.cheap_clone()))
+                    .and_then(|binding| binding.import_binding.clone())
+            })
+        };
+        match imported {
+            Some(import) => JsFunction::ModuleReExportGetter {
+                source_module: import.module_obj,
+                source_key: import.property_key,
+            },
+            None => JsFunction::ModuleExportGetter {
+                module_env: module_env.cheap_clone(),
+                binding_name,
+            },
+        }
+    }
+
     fn finalize_module_exports(
         &mut self,
         module_path: crate::ModulePath,
@@ -1046,10 +1071,7 @@ impl Interpreter {
                             let mut getter_ref = getter_obj.borrow_mut();
                             getter_ref.prototype = Some(self.function_prototype.cheap_clone());
                             getter_ref.exotic =
-                                ExoticObject::Function(JsFunction::ModuleExportGetter {
-                                    module_env: module_env.cheap_clone(),
-                                    binding_name: name,
-                                });
+                                ExoticObject::Function(Self::export_getter(&module_env, name));
                         }
 
                         // Set as accessor property (getter only, no setter)
@@ -1890,10 +1912,7 @@ impl Interpreter {
                             let mut getter_ref = getter_obj.borrow_mut();
                             getter_ref.prototype = Some(self.function_prototype.cheap_clone());
                             getter_ref.exotic =
-                                ExoticObject::Function(JsFunction::ModuleExportGetter {
-                                    module_env: module_env.cheap_clone(),
-                                    binding_name: name,
-                                });
+                                ExoticObject::Function(Self::export_getter(&module_env, name));
                         }
 
                         // Set as accessor property (getter only, no setter)
@@ -3849,10 +3868,7 @@ impl Interpreter {
                             let mut getter_ref = getter_obj.borrow_mut();
                             getter_ref.prototype = Some(self.function_prototype.cheap_clone());
                             getter_ref.exotic =
-                                ExoticObject::Function(JsFunction::ModuleExportGetter {
-                                    module_env: module_env.cheap_clone(),
-                                    binding_name: name,
-                                });
+                                ExoticObject::Function(Self::export_getter(&module_env, name));
                         }
 
                         // Set as accessor property (getter only, no setter)
